@@ -656,3 +656,5 @@ B("b46", ["C02", "C03"], VI, "        return jnp.max(\n            jax.vmap(\n  
 M("m128", "C13", "R13.5", HENDRIX, "            pu[0, y] = scipy.stats.poisson.pmf(x + y, self.demand_poisson_mean_b).dot(\n                scipy.stats.binom.pmf(0, x, self.substitution_probability)\n            )",
   "            pu[0, y] = scipy.stats.poisson.pmf(x + y, self.demand_poisson_mean_b).dot(\n                np.exp(x * np.log1p(-self.substitution_probability))\n            )",
   "Binomial(0; x, p) written as exp(x * log1p(-p)): NaN at the accepted p = 1 with x = 0 (positive example of the zero-count rule)")
+B("b47", ["C17"], PROBLEM, "        max_deviation = jnp.max(jnp.abs(row_sums - 1.0))\n        if max_deviation > normalization_tolerance:",
+  "        max_deviation = jnp.max(jnp.abs(row_sums - 1.0))\n        if jnp.any(jnp.abs(row_sums - 1.0) > normalization_tolerance):", "row-sum test written with any() of the element-wise comparison")
